@@ -310,7 +310,8 @@ class EngineCampaign:
             ctx.broke("engine sentinel: the synchronisation skeleton of run_function_on_graph.py differs from the one Engine.v was written against",
                       {"expected": SKELETON_SHA, "actual": sha})
 
-    def one(self, nodes, edges, workers, max_errors, scheduler, failing, exc_kind, chooser, tag, interrupt_at=None, pause=True):
+    def one(self, nodes, edges, workers, max_errors, scheduler, failing, exc_kind, chooser, tag, interrupt_at=None, pause=True,
+            opcodes=True, dedupe=None):
         uj_graph = build_nx(self.uj, nodes, edges)
         exc_objs = {}
         failing = set(failing)
@@ -321,13 +322,19 @@ class EngineCampaign:
                      "SystemExit": SystemExit, "Falsy": FalsyBoom}[exc_kind]("fail %r" % (node,))
                 exc_objs[node] = e
                 raise e
-        run = detsched.Run(self.rfg, self.sites, chooser, pause_in_fn=pause)
+        run = detsched.Run(self.rfg, self.sites, chooser, pause_in_fn=pause, opcodes=opcodes)
         outcome = run.execute(uj_graph, fn, workers, max_errors, scheduler, interrupt_at=interrupt_at)
         case = {"nodes": nodes, "edges": edges, "workers": workers, "max_errors": max_errors, "scheduler": scheduler,
                 "failing": sorted(failing), "exc_kind": exc_kind, "schedule": tag, "decisions": run.sched.decisions[:4000],
                 "interrupt_at": interrupt_at, "outcome": outcome[0]}
         for prop, key, what in monitors(self.ctx, None, run, nodes, edges, workers, max_errors, failing, exc_objs, outcome, case):
             self.found.append((prop, key, what, dict(case, events=[repr(e) for e in run.events[:400]])))
+        if dedupe is not None:
+            # systematic exploration: many schedules give the same event trace; the model judges each distinct trace once
+            key = tuple(repr(e) for e in run.events)
+            if key in dedupe:
+                return run, outcome
+            dedupe.add(key)
         if outcome[0] != "deadlock":
             try:
                 ch, exp = to_choices(run, nodes, edges, self.rfg.DONE)
@@ -382,6 +389,7 @@ def campaign(ctx, props):
     camp.sentinel()
     rng = ctx.rng
     targeted(ctx, camp)
+    systematic(ctx, camp)
     ngraphs = ctx.n(36, 400)
     nsched = ctx.n(5, 12)
     for gi in range(ngraphs):
@@ -462,6 +470,51 @@ def targeted(ctx, camp):
                                     [], "Exception", chooser, "join-stress:" + name)
             ctx.case(("join-stress", name, tuple(run.sched.decisions[:300])))
             ctx.count("targeted_shape", name + "/stress")
+
+
+def systematic(ctx, camp, shapes=None, budget=None):
+    """Deviation-bounded systematic exploration (in the spirit of CHESS): the default schedule runs every thread until it
+    blocks; EVERY schedule that deviates from it at exactly one decision point (any yield point = any bytecode boundary of
+    run_function_on_graph.py, any alternative thread) is executed, and a sample of the schedules with two deviations.
+    Every run goes through the monitors; every distinct event trace is judged by Engine.v."""
+    rng = ctx.rng
+    shapes = shapes or [
+        ("fanin2", [0, 1, 2], [(0, 2, "pos"), (1, 2, "pos")], [], "Exception", 0),
+        ("double-join", [0, 1, 2, 3, 4], [(0, 3, "pos"), (1, 3, "pos"), (3, 4, "pos"), (2, 4, "pos")], [], "Exception", 0),
+        ("fail-with-sibling", [0, 1, 2], [(0, 2, "pos")], [0], "Exception", 0),
+        ("two-failures", [0, 1, 2, 3], [(0, 2, "pos"), (1, 3, "pos")], [0, 1], "BaseException", 1),
+    ]
+    budget = budget or ctx.n(700, 30000)
+    per_shape = max(50, budget // (len(shapes) * 2))
+    for name, nodes, edges, failing, exc_kind, max_errors in shapes:
+        for workers in (2, 3):
+            opcodes = not ctx.quick or name == "fanin2"
+            seen = set()
+            rec0 = []
+            run, outcome = camp.one(nodes, edges, workers, max_errors, "cheap", failing, exc_kind,
+                                    detsched.deviation_chooser({}, rec0), "systematic:%s:default" % name, opcodes=opcodes, dedupe=seen)
+            points = [(i, k) for i, (n_opt, d) in enumerate(rec0) for k in range(n_opt) if k != d]
+            ctx.count("systematic_decision_points", len(rec0) // 100 * 100)
+            exhaustive = len(points) <= per_shape
+            chosen = points if exhaustive else sorted(rng.sample(points, per_shape))
+            ctx.count("systematic_1dev_exhaustive", "%s/w%d: %s (%d of %d)" % (name, workers, exhaustive, len(chosen), len(points)))
+            second = []
+            for (i, k) in chosen:
+                rec = []
+                run, outcome = camp.one(nodes, edges, workers, max_errors, "cheap", failing, exc_kind,
+                                        detsched.deviation_chooser({i: k}, rec), "systematic:%s:dev@%d->%d" % (name, i, k),
+                                        opcodes=opcodes, dedupe=seen)
+                ctx.case(("systematic", name, workers, i, k), nontrivial=True)
+                ctx.count("outcome", outcome[0])
+                later = [(j, m) for j, (n_opt, d) in enumerate(rec) if j > i for m in range(n_opt) if m != d]
+                if later:
+                    second.append(((i, k), rng.choice(later)))
+            for (a, b) in rng.sample(second, min(len(second), per_shape // 4)):
+                run, outcome = camp.one(nodes, edges, workers, max_errors, "cheap", failing, exc_kind,
+                                        detsched.deviation_chooser({a[0]: a[1], b[0]: b[1]}, []),
+                                        "systematic:%s:dev@%d->%d,%d->%d" % (name, a[0], a[1], b[0], b[1]), opcodes=opcodes, dedupe=seen)
+                ctx.case(("systematic2", name, workers, a, b), nontrivial=True)
+            ctx.count("systematic_distinct_traces", "%s/w%d: %d" % (name, workers, len(seen)))
 
 
 def file_findings(ctx, camp, props):
